@@ -52,7 +52,37 @@ theorem partition_exact (m : Mapping) (attrs : List String) (a : String) (ha : a
   by_cases h1 : a ∈ m.path <;> by_cases h2 : a ∈ m.query <;> by_cases h3 : a ∈ m.header <;>
     by_cases h4 : a ∈ m.cookie <;> simp [h1, h2, h3, h4]
 
+/-! ### arrays in the query string and in headers -/
+
+/-- **Request direction**: the elements of an array in the query string or in a header reach the
+    server as sent, whatever they are (commas, spaces, empty strings, no element at all). -/
+theorem request_elems_delivered (l : Loc) (xs : List String) : deliverElems .request l xs = xs := by
+  cases l <;> rfl
+
+/-- **Response direction, headers**: an array arrives as sent **iff it has exactly one element** —
+    the generated server joins the elements into one header value and the generated client reads one
+    element per value. This is the recorded finding `response/header/array-written-as-one-joined-value`
+    stated exactly: the check compares what the client saw with `deliverElems`, so any OTHER
+    behaviour is still reported. -/
+theorem response_header_elems_delivered_iff (xs : List String) :
+    deliverElems .response .header xs = xs ↔ ∃ x, xs = [x] := by
+  unfold deliverElems decodeElems encodeElems
+  constructor
+  · intro h
+    match xs, h with
+    | [x], _ => exact ⟨x, rfl⟩
+    | [], h => simp at h
+    | _ :: _ :: _, h => simp at h
+  · rintro ⟨x, rfl⟩
+    rfl
+
+/-- what the client sees instead: always exactly one element -/
+theorem response_header_elems_one (xs : List String) : (deliverElems .response .header xs).length = 1 := rfl
+
 /-! ### Non-vacuity -/
+example : deliverElems .response .header ["a", "b"] = ["a, b"] := by decide
+example : deliverElems .response .header [] = [""] := by decide
+example : deliverElems .request .header ["a", "b"] = ["a", "b"] := by decide
 example : parse .int32 (format .int32 (-2147483648)) = some (-2147483648) :=
   int_roundtrip .int32 (by decide) _ (by decide)
 example : parse .uint64 (format .uint64 18446744073709551615) = some 18446744073709551615 :=
